@@ -49,6 +49,12 @@ type Spec struct {
 	MaxConc  int         `json:"max_conc,omitempty"`
 	MaxInstr int64       `json:"max_instr,omitempty"`
 	Level    string      `json:"level,omitempty"`
+	FloatUF  bool        `json:"float_uf,omitempty"`
+	// PrefixDepth/PrefixBudget: paths are counted per prefix of PrefixDepth choice
+	// decisions (e.g. per opcode row); a prefix that exceeds PrefixBudget paths is
+	// cut off and reported inconclusive instead of starving the other prefixes.
+	PrefixDepth  int `json:"prefix_depth,omitempty"`
+	PrefixBudget int `json:"prefix_budget,omitempty"`
 	Quick    TierSpec    `json:"quick"`
 	Thorough TierSpec    `json:"thorough"`
 }
@@ -190,6 +196,7 @@ func workerMain(args []string) {
 		pprof.StartCPUProfile(f)
 		defer pprof.StopCPUProfile()
 	}
+	interp.SetFloatUF(spec.FloatUF)
 	m := loadMachine(spec)
 	ctx := interp.SmtCtx()
 	solver, err := smt.NewSolver(ctx, spec.Solver, spec.Timeout)
@@ -467,6 +474,15 @@ func checkMain(args []string) {
 		results[i] = &entryResult{Entry: e, Funcs: map[string]bool{}, Stubs: map[string]bool{}, Params: params}
 		queue = append(queue, item{i, ""})
 	}
+	prefixKey := func(ei int, prefix string) string {
+		f := strings.Fields(prefix)
+		if len(f) > spec.PrefixDepth {
+			f = f[:spec.PrefixDepth]
+		}
+		return fmt.Sprintf("%d|%s", ei, strings.Join(f, " "))
+	}
+	prefixPaths := map[string]int{}
+	prefixCut := map[string]bool{}
 	var mu sync.Mutex
 	cond := sync.NewCond(&mu)
 	active := 0
@@ -522,13 +538,28 @@ func checkMain(args []string) {
 				// take up to a small batch of prefixes of one entry (LIFO = depth first)
 				n := len(queue) - 1
 				it := queue[n]
-				batch := []string{it.prefix}
 				queue = queue[:n]
+				if spec.PrefixBudget > 0 {
+					k := prefixKey(it.ei, it.prefix)
+					if prefixPaths[k] > spec.PrefixBudget {
+						if !prefixCut[k] {
+							prefixCut[k] = true
+							r := results[it.ei]
+							r.Inconcl = append(r.Inconcl, fmt.Sprintf("path budget %d exceeded under choice prefix [%s]: remaining paths of that case not explored", spec.PrefixBudget, strings.SplitN(k, "|", 2)[1]))
+							r.Stats.Inconclusive++
+						}
+						mu.Unlock()
+						cond.Broadcast()
+						continue
+					}
+				}
+				batch := []string{it.prefix}
 				maxBatch := len(queue) / (2 * len(workers))
 				if maxBatch > 512 {
 					maxBatch = 512
 				}
-				for len(batch) < maxBatch && len(queue) > 0 && queue[len(queue)-1].ei == it.ei {
+				for len(batch) < maxBatch && len(queue) > 0 && queue[len(queue)-1].ei == it.ei &&
+					(spec.PrefixBudget == 0 || prefixKey(it.ei, queue[len(queue)-1].prefix) == prefixKey(it.ei, it.prefix)) {
 					batch = append(batch, queue[len(queue)-1].prefix)
 					queue = queue[:len(queue)-1]
 				}
@@ -564,6 +595,9 @@ func checkMain(args []string) {
 					queue = append(queue, item{it.ei, p})
 				}
 				addStats(&r.Stats, rsp.Stats)
+				if spec.PrefixBudget > 0 {
+					prefixPaths[prefixKey(it.ei, it.prefix)] += rsp.Stats.Paths
+				}
 				r.Findings = append(r.Findings, rsp.Findings...)
 				if len(r.Witnesses) < 3 {
 					r.Witnesses = append(r.Witnesses, rsp.Witnesses...)
